@@ -75,12 +75,16 @@ theorem step_flushes (j : Nat) (st : St) (e : TEv) : st.flushes ≤ (step j st e
   | read name isBool bits => simp only [step]; split <;> simp
   | finish now =>
     simp only [step]
-    exact ⟨by simp [flush], fun g hg => ⟨(flush_groups st now g hg).1, by simp [flush]⟩⟩
-  | newPhase after now =>
-    simp only [step]
-    cases after with
-    | true => simp only [if_true]; exact ⟨by simp [flush], fun g hg => ⟨(flush_groups st now g hg).1, by simp [flush]⟩⟩
-    | false => simp
+    exact ⟨by simp [flush], fun g hg => ⟨(flush_groups st _ g hg).1, by simp [flush]⟩⟩
+  | newPhase ph now =>
+    cases ph with
+    | before => simp [step]
+    | during => simp [step]
+    | after =>
+      simp only [step]
+      by_cases hp : st.pending = true
+      · simp [hp]
+      · simp only [hp]; exact ⟨by simp [flush], fun g hg => ⟨(flush_groups st now g hg).1, by simp [flush]⟩⟩
 
 theorem run_interval_ge : ∀ (evs : List TEv) (j : Nat) (st : St), ∀ g ∈ run j st evs, st.flushes ≤ g.interval := by
   intro evs
@@ -102,11 +106,15 @@ theorem step_sorted (j : Nat) (st : St) (e : TEv) : (step j st e).1.Pairwise (fu
   | rst during name v => simp only [step]; split <;> simp
   | read name isBool bits => simp only [step]; split <;> simp
   | finish now => simp only [step]; exact flushGo_sorted _ _ _ _ _ _ _
-  | newPhase after now =>
-    simp only [step]
-    cases after with
-    | true => simp only [if_true]; exact flushGo_sorted _ _ _ _ _ _ _
-    | false => simp
+  | newPhase ph now =>
+    cases ph with
+    | before => simp [step]
+    | during => simp [step]
+    | after =>
+      simp only [step]
+      by_cases hp : st.pending = true
+      · simp [hp]
+      · simp only [hp]; exact flushGo_sorted _ _ _ _ _ _ _
 
 /-- the groups are written in strictly increasing (interval, phase) order -/
 theorem run_sorted : ∀ (evs : List TEv) (j : Nat) (st : St), (run j st evs).Pairwise (fun a b => keyLt a.key b.key) := by
@@ -213,23 +221,32 @@ theorem run_bracket : ∀ (evs : List TEv) (j : Nat) (st : St) (W : Nat) (lo : R
     | finish now =>
       simp only [Mono] at hm
       simp only [step] at hg
+      obtain ⟨hlo, rfl⟩ := hm
       rcases hg with hg | hg
-      · exact hflush now hm.1 g hg
-      · exact ih _ _ _ now (flush_drift st W lo now hinv hm.1).2 hm.2 g hg
-    | newPhase after now =>
+      · exact hflush _ (Rat.le_trans hlo (le_finishStop st now)) g hg
+      · simp [run] at hg
+    | newPhase ph now =>
       simp only [Mono] at hm
-      simp only [step] at hg
-      cases after with
-      | true =>
-        simp only [if_true] at hg
+      cases ph with
+      | before =>
         rcases hg with hg | hg
-        · exact hflush now hm.1 g hg
-        · have h2 := (flush_drift st W lo now hinv hm.1).2
-          (refine ih _ _ (W + advSum (flush st now).1) now ?_ hm.2 g hg; exact ⟨h2.written, h2.le_start, h2.start_le⟩)
-      | false =>
-        simp only [Bool.false_eq_true, if_false] at hg
-        rcases hg with hg | hg
-        · simp at hg
+        · simp [step] at hg
         · (refine ih _ _ W now ?_ hm.2 g hg; exact ⟨hinv.written, hinv.le_start, Rat.le_trans hinv.start_le hm.1⟩)
+      | during =>
+        rcases hg with hg | hg
+        · simp [step] at hg
+        · (refine ih _ _ W now ?_ hm.2 g hg; exact ⟨hinv.written, hinv.le_start, Rat.le_trans hinv.start_le hm.1⟩)
+      | after =>
+        simp only [step] at hg
+        by_cases hp : st.pending = true
+        · simp only [hp, if_true] at hg
+          rcases hg with hg | hg
+          · simp at hg
+          · (refine ih _ _ W now ?_ hm.2 g hg; exact ⟨hinv.written, hinv.le_start, Rat.le_trans hinv.start_le hm.1⟩)
+        · simp only [hp] at hg
+          rcases hg with hg | hg
+          · exact hflush now hm.1 g hg
+          · have h2 := (flush_drift st W lo now hinv hm.1).2
+            (refine ih _ _ (W + advSum (flush st now).1) now ?_ hm.2 g hg; exact ⟨h2.written, h2.le_start, h2.start_le⟩)
 
 end Gatery.C20.TV
